@@ -26,14 +26,16 @@ Proof.
     destruct (Hpre i b0 (or_introl eq_refl)) as [b' [H|H]]; rewrite H; apply IH; intros; apply Hpre; now right.
 Qed.
 
-Lemma passes_not_generic : forall w l, forallb (passes_over w) l = true -> existsb is_generic_alias l = false.
+Definition in_front (w : world) (v : val) : bool := passes_over w v || foreign w v.
+
+Lemma front_not_generic : forall w l, forallb (in_front w) l = true -> existsb is_generic_alias l = false.
 Proof.
   induction l as [|x l IH]; [reflexivity|]. cbn [forallb existsb]. intro H.
   apply andb_true_iff in H as [H1 H2]. rewrite (IH H2), orb_false_r.
   destruct x; try discriminate H1; try reflexivity. destruct x; try discriminate H1; reflexivity.
 Qed.
 
-Lemma passes_is_base : forall w l, forallb (passes_over w) l = true -> forallb is_base l = true.
+Lemma front_is_base : forall w l, forallb (in_front w) l = true -> forallb is_base l = true.
 Proof.
   induction l as [|x l IH]; [reflexivity|]. cbn [forallb]. intro H.
   apply andb_true_iff in H as [H1 H2]. rewrite (IH H2), andb_true_r. destruct x; try discriminate H1; reflexivity.
@@ -44,17 +46,18 @@ Proof. intros l H. unfold first_generic. now rewrite (filter_none _ H). Qed.
 
 Lemma gt_binding : forall w k c oc pre d xs post ts,
   lookup_ob w c = Some (pre ++ VAlias (VCls d) xs :: post) ->
-  forallb (passes_over w) pre = true -> forallb is_base post = true -> existsb is_generic_alias post = false ->
+  forallb (in_front w) pre = true -> uses_mixin w d = true ->
+  forallb is_base post = true -> existsb is_generic_alias post = false ->
   direct_generic w d ts ->
   call_n P w no_ext (S (S k)) "_get_types" [VInst c oc] = Ok (VDict (zipdict ts xs)).
 Proof.
-  intros w k c oc pre d xs post ts Hl Hpre Hpost Hng (bases & Hld & Hdecl & Hdist).
+  intros w k c oc pre d xs post ts Hl Hpre Hmx Hpost Hng (bases & Hld & Hdecl & Hdist).
   destruct (declares_first_generic _ _ Hdecl) as [Hbb Hfg].
   assert (Hall : forallb is_base (pre ++ VAlias (VCls d) xs :: post) = true).
-  { rewrite forallb_app. cbn [forallb is_base]. now rewrite (passes_is_base _ _ Hpre), Hpost. }
+  { rewrite forallb_app. cbn [forallb is_base]. now rewrite (front_is_base _ _ Hpre), Hpost. }
   assert (Hnone : first_generic (pre ++ VAlias (VCls d) xs :: post) = VNone).
   { unfold first_generic. rewrite filter_app. cbn [filter is_generic_alias].
-    now rewrite (filter_none _ (passes_not_generic _ _ Hpre)), (filter_none _ Hng). }
+    now rewrite (filter_none _ (front_not_generic _ _ Hpre)), (filter_none _ Hng). }
   rewrite call_S; cbn [assoc String.eqb Ascii.eqb Bool.eqb progs].
   unfold run_fundef; cbn; unfold has_attr; rewrite get_inst_ob, Hl; cbn.
   rewrite (ggb_ok w k _ _) by (try eassumption; now rewrite get_inst_ob, Hl).
@@ -67,15 +70,19 @@ Proof.
   { apply (for_loop_scan _ (fun b => [("self", Some (VInst c oc)); ("non_generic_error", Some (VExn AssertionErrorC));
        ("generic_base", Some VNone); ("base", b); ("types", None); ("type_vars", None)])).
     - intros i b Hi. exists (Some i).
-      assert (Hp : passes_over w i = true) by (rewrite forallb_forall in Hpre; auto).
+      assert (Hp : in_front w i = true) by (rewrite forallb_forall in Hpre; auto).
+      unfold in_front in Hp.
       destruct i; try discriminate Hp; [left; reflexivity|].
-      destruct i; try discriminate Hp. cbn [passes_over] in Hp.
-      destruct (lookup_ob w c0) as [bs|] eqn:Eb; [|discriminate Hp].
-      apply andb_true_iff in Hp as [Hb1 Hb2]. apply negb_true_iff in Hb2.
-      right. cbn. unfold has_attr. cbn.
-      rewrite (ggb_ok w k _ bs) by (try assumption; now rewrite get_cls_ob, Eb).
-      rewrite (first_generic_none _ Hb2). reflexivity.
-    - intro b. cbn. unfold has_attr. cbn.
+      destruct i; try discriminate Hp. cbn [passes_over foreign] in Hp.
+      destruct (uses_mixin w c0) eqn:Eu.
+      + cbn [negb] in Hp. rewrite orb_false_r in Hp.
+        destruct (lookup_ob w c0) as [bs|] eqn:Eb; [|discriminate Hp].
+        apply andb_true_iff in Hp as [Hb1 Hb2]. apply negb_true_iff in Hb2.
+        right. cbn. unfold has_attr. cbn. rewrite Eu. cbn.
+        rewrite (ggb_ok w k _ bs) by (try assumption; now rewrite get_cls_ob, Eb).
+        rewrite (first_generic_none _ Hb2). reflexivity.
+      + left. cbn. unfold has_attr. cbn. rewrite Eu. reflexivity.
+    - intro b. cbn. unfold has_attr. cbn. rewrite Hmx. cbn.
       rewrite (ggb_ok w k _ bases) by (try assumption; now rewrite get_cls_ob, Hld).
       rewrite Hfg. reflexivity. }
   rewrite HL. cbn.
@@ -161,8 +168,8 @@ Lemma get_types_binding : forall w k c oc ts xs,
   binding_subclass w c ts xs ->
   call_n P w no_ext (S (S k)) "_get_types" [VInst c oc] = Ok (VDict (combine ts xs)).
 Proof.
-  intros w k c oc ts xs (pre & d & post & Hl & Hpre & Hpost & Hng & Hd).
-  rewrite (gt_binding w k c oc pre d xs post ts Hl Hpre Hpost Hng Hd).
+  intros w k c oc ts xs (pre & d & post & Hl & Hpre & Hmx & Hpost & Hng & Hd).
+  rewrite (gt_binding w k c oc pre d xs post ts Hl Hpre Hmx Hpost Hng Hd).
   destruct Hd as (b & _ & _ & Hk). now rewrite zipdict_distinct.
 Qed.
 
@@ -272,7 +279,7 @@ Proof.
     + rewrite (tv_direct w k c o xs ts Hd). cbn [meets]. destruct Hd as (b & _ & _ & Hk).
       cbn in Hv. apply andb_true_iff in Hv as [Hv1 Hv2]. now apply same_dict_zip.
   - cbn [spec_type_vars]. rewrite (tv_binding w k c oc ts xs Hb). cbn [meets].
-    destruct Hb as (pre & d & post & _ & _ & _ & _ & b & _ & _ & Hk).
+    destruct Hb as (pre & d & post & _ & _ & _ & _ & _ & b & _ & _ & Hk).
     cbn in Hv. apply andb_true_iff in Hv as [Hv1 Hv2]. now apply same_dict_zip.
   - cbn [spec_type_vars]. now rewrite (tv_non_generic w k c oc Hn).
   - reflexivity.
@@ -344,7 +351,8 @@ Proof.
 Qed.
 
 Lemma binding_scan_sound : forall w bases ts xs, binding_scan w bases ts xs = true ->
-  exists pre d post, bases = pre ++ VAlias (VCls d) xs :: post /\ forallb (passes_over w) pre = true /\
+  exists pre d post, bases = pre ++ VAlias (VCls d) xs :: post /\
+    forallb (fun v => passes_over w v || foreign w v) pre = true /\ uses_mixin w d = true /\
     forallb is_base post = true /\ existsb is_generic_alias post = false /\ direct_generic w d ts.
 Proof.
   induction bases as [|b bases IH]; intros ts xs H; [discriminate|].
@@ -352,11 +360,12 @@ Proof.
   - cbn [binding_scan] in H. destruct (IH _ _ H) as (pre & d & post & -> & Hp & R).
     exists (VCls c :: pre), d, post. split; [reflexivity|]. split; [|exact R]. cbn. exact Hp.
   - destruct b; try discriminate H. cbn [binding_scan] in H.
-    destruct (passes_over w (VAlias (VCls c) args)) eqn:Ep.
+    destruct (passes_over w (VAlias (VCls c) args) || foreign w (VAlias (VCls c) args)) eqn:Ep.
     + destruct (IH _ _ H) as (pre & d & post & -> & Hp & R).
       exists (VAlias (VCls c) args :: pre), d, post. split; [reflexivity|]. split; [|exact R].
       cbn [forallb]. now rewrite Ep, Hp.
-    + apply andb_true_iff in H as [H H4]. apply andb_true_iff in H as [H H3]. apply andb_true_iff in H as [H1 H2].
+    + apply orb_false_iff in Ep as [_ Ef]. cbn [foreign] in Ef. apply negb_false_iff in Ef.
+      apply andb_true_iff in H as [H H4]. apply andb_true_iff in H as [H H3]. apply andb_true_iff in H as [H1 H2].
       apply toks_eqb_eq in H1. subst args. apply negb_true_iff in H3. apply direct_generic_b_sound in H4.
       exists [], c, bases. repeat split; assumption.
 Qed.
@@ -401,30 +410,4 @@ Proof.
   now apply first_ob_skip.
 Qed.
 
-Lemma binding_scan_full_sound : forall mx w bases ts xs, binding_scan_full mx w bases ts xs = true ->
-  exists pre d post, bases = pre ++ VAlias (VCls d) xs :: post /\
-    forallb (fun v => passes_over w v || foreign w mx v) pre = true /\ on_mro w mx d = true /\
-    forallb is_base post = true /\ existsb is_generic_alias post = false /\ direct_generic w d ts.
-Proof.
-  induction bases as [|b bases IH]; intros ts xs H; [discriminate|].
-  destruct b; try discriminate H.
-  - cbn [binding_scan_full] in H. destruct (IH _ _ H) as (pre & d & post & -> & Hp & R).
-    exists (VCls c :: pre), d, post. split; [reflexivity|]. split; [|exact R]. cbn. exact Hp.
-  - destruct b; try discriminate H. cbn [binding_scan_full] in H.
-    destruct (passes_over w (VAlias (VCls c) args) || foreign w mx (VAlias (VCls c) args)) eqn:Ep.
-    + destruct (IH _ _ H) as (pre & d & post & -> & Hp & R).
-      exists (VAlias (VCls c) args :: pre), d, post. split; [reflexivity|]. split; [|exact R].
-      cbn [forallb]. now rewrite Ep, Hp.
-    + apply orb_false_iff in Ep as [_ Ef]. cbn [foreign] in Ef. apply negb_false_iff in Ef.
-      apply andb_true_iff in H as [H H4]. apply andb_true_iff in H as [H H3]. apply andb_true_iff in H as [H1 H2].
-      apply toks_eqb_eq in H1. subst args. apply negb_true_iff in H3. apply direct_generic_b_sound in H4.
-      exists [], c, bases. repeat split; assumption.
-Qed.
 
-Lemma binding_subclass_full_b_sound : forall mx w c ts xs,
-  binding_subclass_full_b mx w c ts xs = true -> binding_subclass_full mx w c ts xs.
-Proof.
-  unfold binding_subclass_full_b, binding_subclass_full. intros mx w c ts xs H.
-  destruct (lookup_ob w c) as [bases|]; [|discriminate].
-  destruct (binding_scan_full_sound _ _ _ _ _ H) as (pre & d & post & -> & R). exists pre, d, post. split; [reflexivity|exact R].
-Qed.
